@@ -519,8 +519,9 @@ def compare_model_real(res, run):
 
 def with_unfinished_applied(events):
     out = []
+    main_tid = events[0]["tid"] if events else None
     for ev in events:
-        if ev["unfinished"]:
+        if ev["unfinished"] and ev["tid"] == main_tid:
             ev = dict(ev)
             ev["unfinished"] = False
             if ev["name"] in ("write", "pwrite64"):
@@ -541,10 +542,10 @@ def do_scenario(bins, sc):
     count("scenarios")
     clean = traced_run(bins, sc, "clean")
     if clean is None:
-        return
+        return []
     if clean["rc"] != 0:
         inconclusive("scenario %d (%s): clean run exited %s: %s" % (sc["idx"], sc["kind"], clean["rc"], clean["out"][-300:]))
-        return
+        return []
     nf = news_fn(sc, clean["rundir"])
     res = c06lib.check_trace(clean["conc"], clean["rundir"], clean["events"], nf, True)
     count("traces_clean")
@@ -554,7 +555,7 @@ def do_scenario(bins, sc):
     nops_expected = len(sc["news"]) if sc["news"] is not None else len(sc["keys"])
     if len(res["ops"]) != nops_expected or not all(ok for _, ok in res["ops"]):
         inconclusive("scenario %d (%s): clean run did not complete its operations: %s" % (sc["idx"], sc["kind"], res["ops"]))
-        return
+        return []
     # the model against reality, and reality against the statement
     final_check(sc, res, clean, killed=False)
     with LOCK:
@@ -606,21 +607,23 @@ def do_scenario(bins, sc):
             ers = ers[:1]
         for e in ers:
             jobs.append(("errno", p, e))
-    for kind, p, e in jobs:
-        if kind == "kill":
-            inj = "%s:signal=SIGKILL:when=%d" % (p["name"], p["when"])
-            tag = "kill-%02d" % p["pos"]
-        else:
-            inj = "%s:error=%s:when=%d" % (p["name"], e, p["when"])
-            tag = "errno-%02d-%s" % (p["pos"], e)
-        run = traced_run(bins, sc, tag, inj)
-        if run is None:
-            continue
-        judge_injected(sc, run, kind, p, e, clean_abs, tid_hint=None)
-        if VIOLATIONS == 0 and not os.environ.get("VERIF_C06_KEEP"):
-            shutil.rmtree(run["rundir"], ignore_errors=True)
+    return [(sc, kind, p, e, clean_abs) for (kind, p, e) in jobs]
+
+
+def do_job(bins, job):
+    sc, kind, p, e, clean_abs = job
+    if kind == "kill":
+        inj = "%s:signal=SIGKILL:when=%d" % (p["name"], p["when"])
+        tag = "kill-%02d" % p["pos"]
+    else:
+        inj = "%s:error=%s:when=%d" % (p["name"], e, p["when"])
+        tag = "errno-%02d-%s" % (p["pos"], e)
+    run = traced_run(bins, sc, tag, inj)
+    if run is None:
+        return
+    judge_injected(sc, run, kind, p, e, clean_abs, tid_hint=None)
     if VIOLATIONS == 0 and not os.environ.get("VERIF_C06_KEEP"):
-        shutil.rmtree(os.path.join(WORK, "sc%03d" % sc["idx"]), ignore_errors=True)
+        shutil.rmtree(run["rundir"], ignore_errors=True)
 
 
 def absorb(sc, res, run, what):
@@ -672,11 +675,23 @@ def final_check(sc, res, run, killed):
     return False
 
 
+ELSEWHERE = []
+
+
+def note_elsewhere(sc, kind, p, got, extra=""):
+    with LOCK:
+        if len(ELSEWHERE) < 12:
+            ELSEWHERE.append("%s sc%d %s: wanted #%d %s, hit %s" % (kind, sc["idx"], sc["kind"], p["pos"],
+                                                                 "/".join(str(x) for x in p["ab"]),
+                                                                 "/".join(str(x) for x in got) if got else "a syscall outside the scenario directory") + " " + extra)
+
+
 def judge_injected(sc, run, kind, p, errno, clean_abs, tid_hint):
     global EVALS
     ev = run["events"]
     nf = news_fn(sc, run["rundir"])
-    killed = any("killed by SIGKILL" in v for v in run["exits"].values())
+    main_tid = ev[0]["tid"] if ev else None   # strace's first line is the exec'd main thread, which runs the ops
+    killed = "killed by SIGKILL" in run["exits"].get(main_tid, "")
     res = c06lib.check_trace(run["conc"], run["rundir"], ev, nf, kind == "errno")
     marks = [i for i, e in enumerate(ev) if c06lib.marker(e)]
     lo = marks[0] if marks else 10 ** 9
@@ -688,6 +703,9 @@ def judge_injected(sc, run, kind, p, errno, clean_abs, tid_hint):
             count("injections_not_fired")
             return
         count("kill_injections_fired")
+        # (strace sometimes repeats the cut-off call under another thread's id when the
+        # whole process dies: only the main thread's unfinished call is the injected one)
+        rel = [(idx, ab, name) for (idx, ab, name) in rel if not (ev[idx]["unfinished"] and ev[idx]["tid"] != main_tid)]
         hit = [(j, idx, ab) for j, (idx, ab, name) in enumerate(rel) if ev[idx]["unfinished"]]
         if hit and hit[-1][0] == p["pos"] and hit[-1][2][:-1] == p["ab"][:-1]:
             count("kill_injections_on_intended_syscall")
@@ -695,13 +713,17 @@ def judge_injected(sc, run, kind, p, errno, clean_abs, tid_hint):
                 SIGS.add(sig_hash("kill", sc["kind"], sc["pre"].split("-")[0], tuple(clean_abs[:p["pos"] + 1])))
         else:
             count("kill_injections_elsewhere")
+            note_elsewhere(sc, "kill", p, hit[-1][2] if hit else None, "pos=%s nrel=%d" % (hit[-1][0] if hit else None, len(rel)))
+            if os.environ.get("VERIF_C06_KEEP"):
+                shutil.copy(os.path.join(run["rundir"], "trace.txt"), os.path.join(WORK, "elsewhere-sc%d-kill-%d.txt" % (sc["idx"], p["pos"])))
         final_check(sc, res, run, killed=True)
         n = sum(1 for path in run["listing"] if c06lib.TMP_RE.search(path))
         if n:
             count("temps_left_after_kill", n)
         return
     # errno
-    inj = [(i, e) for i, e in enumerate(ev) if e["injected"]]
+    # (a child process spawned during package init gets its own k-th call tampered with: not ours)
+    inj = [(i, e) for i, e in enumerate(ev) if e["injected"] and e["tid"] == main_tid]
     if not inj:
         count("injections_not_fired")
         return
@@ -717,6 +739,7 @@ def judge_injected(sc, run, kind, p, errno, clean_abs, tid_hint):
             SIGS.add(sig_hash("errno", errno, sc["kind"], sc["pre"].split("-")[0], tuple(clean_abs[:p["pos"] + 1])))
     else:
         count("errno_injections_elsewhere")
+        note_elsewhere(sc, "errno", p, hit[0][2] if hit else None)
     if killed or run["rc"] not in (0, 3):
         inconclusive("scenario %d (%s): driver died under errno injection (rc=%s): %s" % (sc["idx"], sc["kind"], run["rc"], run["out"][-200:]))
         return
@@ -774,7 +797,7 @@ def write_part(exhaustive):
             "the pre-existing target and rename sources are assumed durable before the helper is called",
             "SIGKILL injected by strace arrives at syscall entry: process-crash points are 'before syscall k' for every relevant k",
         ],
-        "notes": {"tmpdir_fs": WORK, "strace": "strace --seccomp-bpf -f -s 2000000 -xx -e trace=" + c06lib.TRACE_SET},
+        "notes": {"injections_that_hit_elsewhere": ELSEWHERE, "tmpdir_fs": WORK, "strace": "strace --seccomp-bpf -f -s 2000000 -xx -e trace=" + c06lib.TRACE_SET},
         "exhaustive": exhaustive, "violations": VIOLATIONS, "violation_signatures": VIOL_SIGS,
         "known_findings": KNOWN, "known_descriptions": KNOWN_DESC, "inconclusive": INCONCLUSIVE,
         "wall_s": round(time.time() - T0, 2),
@@ -792,17 +815,34 @@ def main():
     scs = gen_scenarios()
     if ONLY is not None:
         scs = [s for s in scs if str(s["idx"]) == ONLY]
-    workers = int(os.environ.get("VERIF_C06_WORKERS", "8" if QUICK else "16"))
+    workers = int(os.environ.get("VERIF_C06_WORKERS", str(min(16, os.cpu_count() or 4))))
+    jobs = []
+
+    def guarded(what, fn, *a):
+        try:
+            return fn(*a)
+        except Exception as e:  # a checker bug must not pass silently
+            import traceback
+            traceback.print_exc()
+            inconclusive("%s: checker error %r" % (what, e))
+            return None
+
     with concurrent.futures.ThreadPoolExecutor(max_workers=workers) as ex:
-        futs = {ex.submit(do_scenario, bins, sc): sc for sc in scs}
-        for fu in concurrent.futures.as_completed(futs):
-            sc = futs[fu]
-            try:
-                fu.result()
-            except Exception as e:  # a checker bug must not pass silently
-                import traceback
-                traceback.print_exc()
-                inconclusive("scenario %d (%s): checker error %r" % (sc["idx"], sc["kind"], e))
+        # the (slow to start) backend scenarios first
+        order = sorted(scs, key=lambda s: (s["driver"] != "be", s["idx"]))
+        futs = [ex.submit(guarded, "scenario %d (%s)" % (sc["idx"], sc["kind"]), do_scenario, bins, sc) for sc in order]
+        for fu in futs:
+            jobs += fu.result() or []
+    COUNTERS["injection_runs_planned"] = len(jobs)
+    with concurrent.futures.ThreadPoolExecutor(max_workers=workers) as ex:
+        jobs.sort(key=lambda j: (j[0]["driver"] != "be", j[0]["idx"]))
+        futs = [ex.submit(guarded, "scenario %d (%s) %s at %s" % (j[0]["idx"], j[0]["kind"], j[1], j[2]["pos"]), do_job, bins, j)
+                for j in jobs]
+        for fu in futs:
+            fu.result()
+    if VIOLATIONS == 0 and not os.environ.get("VERIF_C06_KEEP"):
+        for sc in scs:
+            shutil.rmtree(os.path.join(WORK, "sc%03d" % sc["idx"]), ignore_errors=True)
     COUNTERS["build_s"] = int(tb - T0)
     floors = {"traces_clean": 10, "traces_real_state_backend": 2, "crash_prefixes_enumerated": 150,
               "durable_states_enumerated": 300, "kill_injections_on_intended_syscall": 40,
